@@ -99,6 +99,12 @@ func runC12(o *Options) *Result {
 	if o.Tier == "thorough" {
 		n = 5000
 	}
+	// every Parse call of this run is also put to the parser model (Model/Parser.v): same tree, or refused alike
+	pmRecord, pmHow = true, "skeleton"
+	pmLimit = map[string]int{"skeleton": 1500, "args": 1500, "fuzz": 600}
+	if o.Tier == "thorough" {
+		pmLimit = map[string]int{"skeleton": 20000, "args": 40000, "fuzz": 20000}
+	}
 	closers := []string{"endif", "endfor", "endswitch"}
 	openers := []string{"if", "for", "forr", "switch"}
 	check := func(tags []string, how string) {
@@ -165,6 +171,7 @@ func runC12(o *Options) *Result {
 		{"{% if len(a.b) > 0 %}", "{% endif %}"}, {"{% if lenEq0(x) %}", "{% endif %}"}, {"{% if v, ok := f(x).(T); !ok %}", "{% endif %}"}, {"{% if v, ok := f(x) as T; ok %}", "{% endif %}"},
 		{"{% switch a.b %}{% case -1 %}", "{% endswitch %}"}, {"{% switch %}{% case a < -2 %}", "{% endswitch %}"}, {"{% switch x %}{% case 'q' %}", "{% endswitch %}"},
 	}
+	pmHow = "spelling"
 	for _, sp := range spell {
 		for _, wrap := range []string{"%s", "{%% if z == 1 %%}%s{%% endif %%}", "{%% for j := 0; j < 2; j++ %%}%s{%% endfor %%}"} {
 			for _, closed := range []bool{true, false} {
@@ -193,6 +200,7 @@ func runC12(o *Options) *Result {
 			}
 		}
 	}
+	pmHow = "skeleton"
 	for i := 0; i < n; i++ {
 		sk := genSkeleton(rng, 1+rng.Intn(4))
 		check(sk, "well-nested")
@@ -221,6 +229,7 @@ func runC12(o *Options) *Result {
 		}
 	}
 	// unterminated tags
+	pmHow = "unterminated"
 	for _, s := range []string{"a{% if x == 1 ", "{%", "{% endif", "x{%= y ", "{% for i:=0; i<2; i++ %}a{% endfor", "{#c#}{% "} {
 		_, po := ParseReg([]byte(s), false)
 		res.Evaluations++
@@ -236,6 +245,7 @@ func runC12(o *Options) *Result {
 	if o.Tier == "thorough" {
 		maxLen = 5
 	}
+	pmHow = "args"
 	var rec func(cur string, d int)
 	rec = func(cur string, d int) {
 		src := "{%= x|default(" + cur + ") %}"
@@ -258,8 +268,34 @@ func runC12(o *Options) *Result {
 	if o.Tier == "thorough" {
 		nf = 100000
 	}
+	pmHow = "fuzz"
+	if v := os.Getenv("VH_PM_FUZZ"); v != "" { // development: a longer fuzz stream through the parser model
+		fmt.Sscan(v, &nf)
+		pmLimit["fuzz"] = nf
+	}
 	runFuzz(o, res, NewRNG(o.Seed+12), nf, "C12")
+	pmRecord = false
 	if err := runSkelModel(o, res); err != nil {
+		res.InfraError = err.Error()
+		return res
+	}
+	if _, err := prepareGenNow(o); err != nil {
+		parserModelBroken(res)
+		pmList = nil
+	}
+	var pmSources [][]byte
+	for _, c := range pmList {
+		pmSources = append(pmSources, c.Src)
+	}
+	nre := 40
+	if o.Tier == "thorough" {
+		nre = 600
+	}
+	if err := runRegexModel(o, res, NewRNG(o.Seed+77), pmSources, nre); err != nil {
+		res.InfraError = err.Error()
+		return res
+	}
+	if err := runParserModel(o, res, "C12"); err != nil {
 		res.InfraError = err.Error()
 		return res
 	}
